@@ -54,6 +54,10 @@ ATOMS = {
     'NL': (U.NL, lambda x, tower=False: isinstance(x, list) and all(isinstance(i, int) for i in x)),
     'TL': (U.TL, lambda x, tower=False: isinstance(x, list) and all(isinstance(i, int) for i in x)),
     'TU': (U.TU, _inst(int, str)),
+    'DupA': (U.DupA, _inst(U.DupA)),
+    'DupB': (U.DupB, _inst(U.DupB)),
+    'TSi': (U.TSi, _inst(int)),
+    'TSs': (U.TSs, _inst(str)),
     'NF': (U.NF, lambda x, tower=False: isinstance(x, (float, int) if tower else float)),
     'TF': (U.TF, lambda x, tower=False: isinstance(x, (float, int) if tower else float)),
     'T': (U.T, lambda x, tower=False: True),
@@ -72,7 +76,7 @@ ATOM_SRC = {
 # atoms whose hint object is a class usable under type[...] (maps to the class for issubclass)
 ATOM_CLASS = {
     'int': int, 'bool': bool, 'str': str, 'float': float, 'bytes': bytes, 'K': U.K, 'K2': U.K2, 'Other': U.Other,
-    'E': U.E, 'object': object, 'complex': complex,
+    'E': U.E, 'object': object, 'complex': complex, 'DupA': U.DupA, 'DupB': U.DupB,
 }
 
 LITVALS = {
@@ -200,6 +204,11 @@ def build(t):
         return GENERICS[t[1]][build(t[2])]
     if tag == 'annm':
         return typing.Annotated[build(t[1]), 'meta']
+    if tag == 'call':
+        base = typing.Callable if t[1] == 't' else cabc.Callable
+        if t[2] == '...':
+            return base[..., build(t[3])]
+        return base[[build(p) for p in t[2]], build(t[3])]
     raise ValueError(t)
 
 
@@ -235,6 +244,10 @@ def src(t) -> str:
         return f'{t[1]}[{src(t[2])}]'
     if tag == 'annm':
         return f"typing.Annotated[{src(t[1])}, 'meta']"
+    if tag == 'call':
+        base = 'typing.Callable' if t[1] == 't' else 'cabc.Callable'
+        ps = '...' if t[2] == '...' else '[' + ', '.join(src(p) for p in t[2]) + ']'
+        return f'{base}[{ps}, {src(t[3])}]'
     raise ValueError(t)
 
 
@@ -252,6 +265,8 @@ def depth(t) -> int:
         return 1 + max(depth(t[2]), depth(t[3]))
     if tag in ('ann', 'annm'):
         return depth(t[1])
+    if tag == 'call':
+        return 1
     raise ValueError(t)
 
 
@@ -277,6 +292,8 @@ def has_sampling(t) -> bool:
         return False
     if tag in ('ann', 'annm'):
         return has_sampling(t[1])
+    if tag == 'call':
+        return False
     if tag == 'g':
         return t[1] == 'GL' or has_sampling(t[2])
     raise ValueError(t)
@@ -359,6 +376,8 @@ def _sat(t, x, full: bool, tower: bool) -> bool:
         return _sat(t[1], x, full, tower) and all(VM.vsat(v, x) for v in t[2:])
     if tag == 'annm':
         return _sat(t[1], x, full, tower)
+    if tag == 'call':
+        return callable(x)          # beartype (like isinstance(x, Callable)) checks callability only
     if tag == 'g':
         if not isinstance(x, GENERICS[t[1]]):
             return False
